@@ -1212,6 +1212,7 @@ def translate_all(repo=None):
             fn, cls = find_func(tree, spec["func"])
             if spec["name"] in os.environ.get("PYTRANS_FORCE_UNSUPPORTED", "").split(","):
                 raise Unsupported("forced by PYTRANS_FORCE_UNSUPPORTED (self-test of the fallback)")
+            unproved = spec["name"] in os.environ.get("PYTRANS_UNPROVED", "").split(",")
             if fn is None:
                 raise Unsupported("function not found: " + spec["func"])
             sp = dict(spec)
@@ -1245,6 +1246,12 @@ def translate_all(repo=None):
             params, term = tr.translate()
             spec["_params"] = params
             text = f"def {spec['name']} {' '.join(params)} : {spec['rtype']} :=\n{textwrap.indent(term, '  ')}\n"
+            if unproved:
+                # the function IS inside the subset, but the equality with the model does not check for this text (the
+                # proof scripts of CodecEq do not absorb the rewrite): tie by correspondence only, like `unsupported`
+                report[spec["name"]] = "translated, equivalence with the model not proved for this text: tie by correspondence"
+                defs.append((spec, None, False))
+                continue
             defs.append((spec, text, True))
             report[spec["name"]] = "ok"
         except Unsupported as e:
